@@ -219,7 +219,7 @@ pub fn check_pos(ctx: &mut Ctx, mp: &MPos, b: &Board) {
 
 pub fn run(ctx: &mut Ctx) {
     wellformed_sweep(ctx);
-    let n = ctx.budget(80_000, 3_000_000);
+    let n = ctx.budget(240_000, 3_000_000);
     let mut src = Sources::standard(n);
     src.three_man = if ctx.tier == crate::ctx::Tier::Thorough && ctx.config != "miri" { u64::MAX } else { n / 10 };
     stream::run(ctx, &src, &mut check_pos);
